@@ -116,7 +116,8 @@ def _work(ctx: Ctx, item):
     keys = traffic.SINGLE_KEYS + traffic.FAST_KEYS
     pgns = sorted({db.by_key[k].pgn for k in keys})
     ids = sorted({db.by_key[k].id for k in keys}) + traffic.twin_ids()
-    pgns = sorted(set(pgns) | set(traffic.TWIN_PGNS))
+    pgns = sorted(set(pgns) | set(traffic.TWIN_PGNS) | {65240})
+    ids = ids + ["isoCommandedAddress"]
 
     def one(cfg, items, build_map):
         mode, entries = cfg
@@ -136,7 +137,7 @@ def _work(ctx: Ctx, item):
             ctx.sample({"mode": mode, "entries": entries, "frames": len(items), "dropped": dropped, "kept": kept})
         return res
 
-    ctx.hyp(one, configs(pgns, ids), traffic.history(twins=True), st.booleans(), max_examples=n, name="filters")
+    ctx.hyp(one, configs(pgns, ids), traffic.history(twins=True, time_passes=True), st.booleans(), max_examples=n, name="filters")
 
 
 def _twins(ctx: Ctx, item):
@@ -182,7 +183,7 @@ WIDE_FILLERS = ["126996/productInformation", "127489/engineParametersDynamic", "
                 "129809/aisClassBStaticDataMsg24PartA"]
 
 
-def wide_items(width):
+def wide_items(width, stall=0.0):
     """A permitted fast-packet message whose frames straddle `width` first frames of other fast PGNs (each on its own stream, never
     completed), then a second permitted message and a single frame."""
     from .. import gen, wire
@@ -191,6 +192,9 @@ def wide_items(width):
     mp, mn, _ = gen.benign_payload(main)
     mf = wire.segment(mp.to_bytes(mn, "little"), 3)
     items = [{"kind": "fastframe", "pgn": main.pgn, "src": 1, "dest": 255, "data": mf[0], "msg": 0, "frame": 0}]
+    if stall:
+        # the link stalls inside the permitted message (real time passes), then the other traffic and the rest of the message arrive
+        items.append({"kind": "warp", "pgn": 0, "src": 0, "dest": 0, "data": b"", "msg": -1, "seconds": stall})
     fill = []
     for k in WIDE_FILLERS:
         d = db.by_key[k]
@@ -219,18 +223,45 @@ def wide_configs():
 def _wide(ctx: Ctx, item):
     """Many streams of filtered-out fast-packet traffic pending at once (a decoder's reassembly state is per stream): the permitted
     message that straddles them must come out of the filtered and the unfiltered decoder alike."""
-    width, ci = item
+    width, ci = item[:2]
+    stall = item[2] if len(item) > 2 else 0.0
     mode, entries = wide_configs()[ci]
-    items = wide_items(width)
+    items = wide_items(width, stall)
     ctx.count()
     ctx.nt(("wide", width, ci))
     ctx.klass("wide_history")
     ctx.klass(f"wide_width_{width}")
     res, dropped, kept = run_case(mode, entries, items)
     if kept < 3:
-        ctx.report("C10|wide|unfiltered-lost", f"width {width}: the unfiltered decoder returned {kept} of the 3 permitted messages", {"wide": width, "config": ci})
+        ctx.report("C10|wide|unfiltered-lost", f"width {width}: the unfiltered decoder returned {kept} of the 3 permitted messages", {"wide": width, "config": ci, "stall": stall})
     for b, w, c in res:
-        ctx.report(b + "|wide", w + f" (history of {width} pending filtered-out streams)", {"wide": width, "config": ci})
+        ctx.report(b + "|wide", w + f" (history of {width} pending filtered-out streams" + (f", {stall} s stall inside the permitted message" if stall else "") + ")",
+                   {"wide": width, "config": ci, "stall": stall})
+
+
+def _commanded(ctx: Ctx, item=None):
+    """Systematic: a device claims, is commanded to another address (PGN 65240 naming its NAME), then sends from both addresses; the
+    permitted messages of a filtered decoder equal the unfiltered decoder's, sender identity included."""
+    from .. import gen
+    db = canboat.db()
+    nm = traffic.iso_name(4711, 137)
+    vh = db.by_key["127250/vesselHeading"]
+    p, n, _ = gen.benign_payload(vh)
+    data = p.to_bytes(n, "little")[:8]
+    items = [{"kind": "claim", "pgn": 60928, "src": 4, "dest": 255, "data": nm.to_bytes(8, "little"), "msg": 0, "name": nm},
+             {"kind": "single", "pgn": 127250, "src": 4, "dest": 255, "data": data, "msg": 1},
+             {"kind": "combined", "pgn": 65240, "src": 9, "dest": 255, "data": nm.to_bytes(8, "little") + bytes([6]), "msg": 2},
+             {"kind": "single", "pgn": 127250, "src": 6, "dest": 255, "data": data, "msg": 3},
+             {"kind": "single", "pgn": 127250, "src": 4, "dest": 255, "data": data, "msg": 4}]
+    for mode, entries in (("exclude", [65240]), ("exclude", ["isoCommandedAddress"]), ("include", [127250]), ("include", ["vesselHeading", 60928]),
+                          ("exclude", [130306])):
+        for bm in (False, True):
+            ctx.count()
+            ctx.nontrivial_extra += 1
+            res, _, _ = run_case(mode, entries, items, bm)
+            for b, w, c in res:
+                ctx.report(b + "|commanded-address", w, c)
+    ctx.klass("commanded_address_scenarios")
 
 
 def _clients(ctx: Ctx, item=None):
@@ -246,9 +277,11 @@ def _clients(ctx: Ctx, item=None):
 
 def run(ctx: Ctx):
     pmap(ctx, _clients, [None])
+    pmap(ctx, _commanded, [None])
     db0 = canboat.db()
     widths = [3, 60, 300, 1030, 2100] if ctx.quick else [3, 60, 300, 1030, 2100, 4200, 9000, 20000, 66000]
-    pmap(ctx, _wide, [(w, ci) for w in widths for ci in range(len(wide_configs()))])
+    pmap(ctx, _wide, [(w, ci) for w in widths for ci in range(len(wide_configs()))]
+         + [(w, ci, st_) for w in (1, 3, 60) for ci in range(len(wide_configs())) for st_ in (2.0, 45.0, 700.0)])
     pmap(ctx, _twins, [(p,) for p, ds in db0.by_pgn.items() if len(ds) > 1])
     n = 150 if ctx.quick else 6000
     pmap(ctx, _work, [(n,)] * 16)
@@ -260,7 +293,7 @@ def replay(ctx: Ctx, case):
         return co.replay("C10", _clients, case)
     if "wide" in case:
         mode, entries = wide_configs()[case["config"]]
-        res, _, kept = run_case(mode, entries, wide_items(case["wide"]))
+        res, _, kept = run_case(mode, entries, wide_items(case["wide"], case.get("stall", 0.0)))
         out = [(b + "|wide", w, case) for b, w, c in res]
         if kept < 3:
             out.append(("C10|wide|unfiltered-lost", "the unfiltered decoder lost a permitted message", case))
@@ -268,4 +301,4 @@ def replay(ctx: Ctx, case):
     res, _, _ = run_case(case["mode"], case["entries"], [traffic.item_from_json(i) for i in case["items"]])
     res2, _, _ = run_case(case["mode"], case["entries"], [traffic.item_from_json(i) for i in case["items"]], True)
     out = res + [r for r in res2 if r[0] not in {x[0] for x in res}]
-    return out + [(b + "|twins", w, c) for b, w, c in out]
+    return out + [(b + "|twins", w, c) for b, w, c in out] + [(b + "|commanded-address", w, c) for b, w, c in out]
